@@ -15,6 +15,13 @@ type Val struct {
 	t   string
 	tup []Val
 	ip  *IPtr
+	av  *arrView // pointer obtained by converting a slice to an array pointer
+}
+
+type arrView struct {
+	slice string
+	n     int64
+	es    string
 }
 
 const (
